@@ -778,13 +778,14 @@ def numbered_nfa(rng, n=None):
     rows = {}
     for i, q in enumerate(Q):
         rows[(q, 'a')] = [Q[(i + 1) % n]]
-        if rng.random() < 0.5:
+        if rng.random() < 0.3:
             rows[(q, 'b')] = sorted({rng.choice(Q), rng.choice(Q)})
-        if rng.random() < 0.15:
+        if rng.random() < 0.1:
             rows[(q, eps)] = [rng.choice(Q)]
-    rows[(Q[0], 'b')] = sorted(set(rows.get((Q[0], 'b'), [])) | {Q[10]})
+    rows[(Q[0], 'b')] = [Q[10]]          # the subset {q10} is reachable: no accepting state in it, but the NAME q1 is part of the name q10
+    rows.pop((Q[0], eps), None)
     delta = [[p, a, T] for (p, a), T in rows.items()]
-    F = sorted({Q[1]} | {q for q in Q[2:10] if rng.random() < 0.15})
+    F = sorted({Q[1]} | {q for q in Q[2:10] if rng.random() < 0.1})
     return {'Q': Q, 'Sigma': Sig, 'delta': delta, 'q0': Q[0], 'F': F, 'eps': eps, 'dd': True}
 
 
